@@ -538,6 +538,8 @@ func (r *runner) run(ops []string) {
 			r.obs[i] = r.opAwake()
 		case "FAIR":
 			r.obs[i] = "FAIR " + r.fair()
+		case "LAG":
+			r.obs[i] = r.opLag(atoi(f[1]), atoi(f[2]))
 		default:
 			panic("bad op " + o)
 		}
@@ -628,4 +630,44 @@ func (r *runner) end() string {
 		c.flag("converged_several")
 	}
 	return fmt.Sprintf("end %s same=%s clean=%s", cl, b01(same), b01(clean))
+}
+
+// opLag: an idle period without any request, then: is the replica on host h behind the others?
+func (r *runner) opLag(h, ms int) string {
+	c := r.c
+	time.Sleep(time.Duration(ms) * time.Millisecond)
+	if !c.up(h) {
+		return "LAG behind=0"
+	}
+	mine := c.state(h)
+	best, sleeping := uint64(0), 0
+	for _, x := range r.reachableMembers() {
+		if x == h {
+			continue
+		}
+		s := c.state(x)
+		if s.Applied > best {
+			best = s.Applied
+		}
+		if s.Quiesced {
+			sleeping++
+		}
+	}
+	if mine.Applied >= best {
+		return "LAG behind=0"
+	}
+	knows := false
+	if nh := c.host(h); nh != nil {
+		_, _, ok, err := nh.GetLeaderID(shardID)
+		knows = ok && err == nil
+	}
+	kind := map[int]string{kVoter: "voting", kNonVoting: "non-voting", kWitness: "witness"}[c.kind[h]]
+	tag := "CATCH-UP"
+	if c.kind[h] != kVoter && sleeping > 0 {
+		tag = "QUIESCED-RESTARTED-NONVOTING-BEHIND"
+	}
+	c.violation("C17 %s: the %s replica on host %d is still at applied index %d of %d after %d ms without faults and without requests (knows a leader: %v, quiesced itself: %v, other replicas quiesced: %d)",
+		tag, kind, h, mine.Applied, best, ms, knows, mine.Quiesced, sleeping)
+	c.flag("lag_behind")
+	return "LAG behind=1"
 }
